@@ -395,6 +395,8 @@ func runC04(e *Engine, r *Report) {
 	// record's key is the commit index, which need not change when term or
 	// vote do); same for entries
 	ruleTanIndexState(e, r)
+	ruleDurableMkdir(e, r)
+	ruleTanManifestSync(e, r)
 }
 
 // runPebbleSync: every pebble write in the kv wrapper takes the options value
